@@ -495,9 +495,31 @@ def parse_mismatches(out):
 # ---------------------------------------------------------------------------------------------
 # generators
 def gen_hierarchy(rng, nhooks, max_classes=6):
-    shape = rng.choice(['chain', 'chain', 'diamond', 'mixin', 'tree', 'single'])
+    shape = rng.choice(['chain', 'chain', 'diamond', 'mixin', 'tree', 'single', 'c3', 'random-mi'])
     if shape == 'single':
         hier = [([], [])]
+    elif shape == 'c3':
+        # Root; Core(Root); Extra(Root); Left(Core, Extra); Right(Core); Leaf(Left, Right): the C3 order (Leaf Left Right Core Extra Root)
+        # differs from depth-first linearisations
+        hier = [([], []), ([0], []), ([0], []), ([1, 2], []), ([1], []), ([3, 4], [])]
+    elif shape == 'random-mi':
+        # random multiple inheritance; combinations Python rejects (inconsistent MRO) are retried
+        for _ in range(20):
+            n = rng.randint(4, max_classes)
+            hier = [([], [])]
+            for i in range(1, n):
+                k = rng.choice([1, 2, 2, 3])
+                bases = sorted(rng.sample(range(i), min(k, i)), reverse=rng.random() < 0.5)
+                hier.append((bases, []))
+            try:
+                cl = []
+                for bases, _ in hier:
+                    cl.append(type('T', tuple(cl[b] for b in bases) or (object,), {}))
+                break
+            except TypeError:
+                continue
+        else:
+            hier = [([], []), ([0], [])]
     elif shape == 'chain':
         n = rng.randint(2, max_classes - 1)
         hier = [([], [])] + [([i], []) for i in range(n - 1)]
